@@ -7,12 +7,12 @@
 // Everything is real: config.NewConfig on generated YAML files, types.NewCoreFieldsUnmarshaler for ingestion, a real
 // collector worker's processSpan + makeDecision (hook) with the real SamplerFactory for the decision.
 // Oracle (reference classifier written from rules.md / config.md / the statement):
-//   1. the selector used at decision time is the environment name for environment-scoped keys and
-//      [DatasetPrefix.]dataset for classic keys (keys the documents do not classify: either, but one of the two);
-//   2. the sampler that decides is the one configured for that selector, else __default__ — observed through the
-//      sampler's reason and through which (per-sampler distinct) fields appear in the sampler key;
-//   3. on the paths that extract sampling fields at ingestion, the fields of that same sampler are the ones extracted,
-//      and on every path the values of all its fields are in the key the sampler computed (available at decision time).
+//  1. the selector used at decision time is the environment name for environment-scoped keys and
+//     [DatasetPrefix.]dataset for classic keys (keys the documents do not classify: either, but one of the two);
+//  2. the sampler that decides is the one configured for that selector, else __default__ — observed through the
+//     sampler's reason and through which (per-sampler distinct) fields appear in the sampler key;
+//  3. on the paths that extract sampling fields at ingestion, the fields of that same sampler are the ones extracted,
+//     and on every path the values of all its fields are in the key the sampler computed (available at decision time).
 package main
 
 import (
